@@ -309,7 +309,13 @@ class Scheduler:
         # resumed (or aborted)
 
     # ------------------------------------------------------------------ threads
+    MAX_THREADS = 200
+
     def spawn(self, obj, name, target):
+        if len(self.threads) >= self.MAX_THREADS:
+            # unbounded thread creation inside one bounded program: report it like an exhausted step budget
+            self.result.budget_exceeded = True
+            self._start_abort()
         t = MThread(len(self.threads), name, obj)
         self.threads.append(t)
 
